@@ -155,8 +155,34 @@ def body_proxy_iop(I, X, op="__iadd__"):
     return ok, {"is_proxy": isinstance(p, LocalProxy)}
 
 
+def body_iter_snapshot(I, X, then="consume-in-sibling"):
+    """iter(local) is bound to the context that called it: consuming the iterator in a sibling
+    context, or after the namespace was released, yields the values it was created over"""
+    from werkzeug.local import Local, release_local
+
+    base = contextvars.copy_context()
+    loc = base.run(Local)
+    a, b = base.run(contextvars.copy_context), base.run(contextvars.copy_context)
+    v0, v1 = X.int("v0", -1000, 1000), X.int("v1", -1000, 1000)
+    a.run(lambda: I.setattr(loc, "x", v0))
+    b.run(lambda: I.setattr(loc, "x", v1))
+    # (the iterator protocol is driven by CPython itself here: the interpreter evaluates
+    # generators eagerly and would hide a lazily evaluated __iter__)
+    it = a.run(lambda: iter(loc))
+    if then == "consume-in-sibling":
+        got = b.run(lambda: list(it))
+    else:
+        a.run(lambda: I.call(release_local, (loc,)))
+        got = a.run(lambda: list(it))
+    ok = len(got) == 1 and got[0][0] == "x" and bool(peq(got[0][1], v0))
+    return ok, {"n": len(got)}
+
+
 def obligations(tier, seed):
     out = []
+    for then in ("consume-in-sibling", "consume-after-release"):
+        out.append({"name": f"iter_snapshot[{then}]", "body": "body_iter_snapshot", "params": {"then": then},
+                    "opts": {"budget_s": 300, "ctx": {"bv_ints": True}}})
     for op in ("__iadd__", "__isub__", "__imul__", "__ifloordiv__"):
         out.append({"name": f"proxy_iop[{op}]", "body": "body_proxy_iop", "params": {"op": op},
                     "opts": {"budget_s": 300, "ctx": {"bv_ints": True}}})
